@@ -88,9 +88,10 @@ func (configgen *ConfigGeneratorImpl) BuildDeltaClusters(proxy *model.Proxy, upd
 	var services []*model.Service
 	// Holds clusters per service, keyed by hostname.
 	serviceClusters := make(map[string]sets.String)
-	// Holds service ports, keyed by hostname.Inner map port and its cluster name.
+	// Holds service ports, keyed by hostname. Inner map port and the names of its clusters (the
+	// default cluster and one per subset share a port).
 	// This is mainly used when service is updated and a port has been removed.
-	servicePortClusters := make(map[string]map[int]string)
+	servicePortClusters := make(map[string]map[int]sets.String)
 	// Holds subset clusters per service, keyed by hostname.
 	subsetClusters := make(map[string]sets.String)
 
@@ -111,9 +112,9 @@ func (configgen *ConfigGeneratorImpl) BuildDeltaClusters(proxy *model.Proxy, upd
 				sets.InsertOrNew(subsetClusters, string(svcHost), cluster)
 			}
 			if servicePortClusters[string(svcHost)] == nil {
-				servicePortClusters[string(svcHost)] = make(map[int]string)
+				servicePortClusters[string(svcHost)] = make(map[int]sets.String)
 			}
-			servicePortClusters[string(svcHost)][port] = cluster
+			sets.InsertOrNew(servicePortClusters[string(svcHost)], port, cluster)
 		}
 	}
 	have := sets.String{}
@@ -135,7 +136,7 @@ func (configgen *ConfigGeneratorImpl) BuildDeltaClusters(proxy *model.Proxy, upd
 				continue
 			}
 
-			svcs, deleted = configgen.deltaFromServiceDiff(proxy, updates.Push, serviceClusters, subsetClusters)
+			svcs, deleted = configgen.deltaFromServiceDiff(proxy, updates.Push, serviceClusters, servicePortClusters, subsetClusters)
 			servicesDiffed = true
 		}
 		// Service and Destination Rule can select the same service. So we need to dedup the services.
@@ -163,7 +164,7 @@ func (configgen *ConfigGeneratorImpl) BuildDeltaClusters(proxy *model.Proxy, upd
 
 // deltaFromServices computes the delta clusters from the updated services.
 func (configgen *ConfigGeneratorImpl) deltaFromServices(key model.ConfigKey, proxy *model.Proxy, push *model.PushContext,
-	serviceClusters map[string]sets.String, servicePortClusters map[string]map[int]string, subsetClusters map[string]sets.String,
+	serviceClusters map[string]sets.String, servicePortClusters map[string]map[int]sets.String, subsetClusters map[string]sets.String,
 ) ([]*model.Service, []string) {
 	var deletedClusters []string
 	var services []*model.Service
@@ -182,10 +183,10 @@ func (configgen *ConfigGeneratorImpl) deltaFromServices(key model.ConfigKey, pro
 		}
 		// Service exists. If the service update has port change, we need to the corresponding port clusters.
 		services = append(services, service)
-		for port, cluster := range servicePortClusters[service.Hostname.String()] {
-			// if this service port is removed, we can conclude that it is a removed cluster.
+		for port, clusters := range servicePortClusters[service.Hostname.String()] {
+			// if this service port is removed, we can conclude that all its clusters (default and subsets) are removed.
 			if _, exists := service.Ports.GetByPort(port); !exists {
-				deletedClusters = append(deletedClusters, cluster)
+				deletedClusters = append(deletedClusters, clusters.UnsortedList()...)
 			}
 		}
 	}
@@ -248,6 +249,7 @@ func (configgen *ConfigGeneratorImpl) deltaFromServiceDiff(
 	proxy *model.Proxy,
 	push *model.PushContext,
 	serviceClusters map[string]sets.String,
+	servicePortClusters map[string]map[int]sets.String,
 	subsetClusters map[string]sets.String,
 ) ([]*model.Service, []string) {
 	var deletedClusters []string
@@ -272,6 +274,25 @@ func (configgen *ConfigGeneratorImpl) deltaFromServiceDiff(
 	for _, service := range allServices {
 		if _, ok := serviceClusters[service.Hostname.String()]; !ok {
 			// this is a service we don't currently have and we should
+			services = append(services, service)
+			continue
+		}
+		// A service we keep may still be imported with different ports than before (a Sidecar egress
+		// listener bound to a port imports only that port): clusters of ports that are gone must be
+		// deleted and the service rebuilt when a port has no cluster yet.
+		portClusters := servicePortClusters[service.Hostname.String()]
+		rebuild := false
+		for port, clusters := range portClusters {
+			if _, exists := service.Ports.GetByPort(port); !exists {
+				deletedClusters = append(deletedClusters, clusters.UnsortedList()...)
+			}
+		}
+		for _, port := range service.Ports {
+			if _, ok := portClusters[port.Port]; !ok && port.Protocol != protocol.UDP {
+				rebuild = true
+			}
+		}
+		if rebuild {
 			services = append(services, service)
 		}
 	}
